@@ -16,6 +16,8 @@ open TsV
 structure DriverState where
   /-- non-ASCII rows of the Unicode table: (char, isUpper, isLower, lower, upper, isWhite) -/
   utable : List (Char × Bool × Bool × Str × Str × Bool) := []
+  /-- `convert_case` snake-casing of the strings of this session, computed by the real crate -/
+  snake : List (Str × Str) := []
 
 def DriverState.U (st : DriverState) : UnicodeOps :=
   let look (c : Char) := st.utable.find? (·.1 == c)
@@ -52,7 +54,20 @@ def optStr : Sx → Option (Option Str)
 def decodeLang : Sx → Option Generate.LangCfg
   | .list [.atom "typescript", m, h] => do
     some (.typescript { typeMappings := ← decodePairs m, versionHeader := ← optStr h })
-  | .list (.atom name :: _) => some (.unmodelled name.toList)
+  | .list [.atom "kotlin", m, h, .str pkg, .str modName, .str pfx] => do
+    some (.kotlin { typeMappings := ← decodePairs m, versionHeader := ← optStr h, package := pkg,
+                    moduleName := modName, pfx })
+  | .list [.atom "swift", m, h, .str pfx, .list dd, .list dgc, .list cvc] => do
+    some (.swift { typeMappings := ← decodePairs m, versionHeader := ← optStr h, pfx,
+                   defaultDecorators := ← Decode.strs dd, defaultGenericConstraints := ← Decode.strs dgc,
+                   codablevoidConstraints := ← Decode.strs cvc })
+  | .list [.atom "scala", m, h, .str pkg, .str modName] => do
+    some (.scala { typeMappings := ← decodePairs m, versionHeader := ← optStr h, package := pkg, moduleName := modName })
+  | .list [.atom "go", m, h, .str pkg, .list acr, nps] => do
+    some (.go { typeMappings := ← decodePairs m, versionHeader := ← optStr h, package := pkg,
+                uppercaseAcronyms := ← Decode.strs acr, noPointerSlice := ← nps.asBool? })
+  | .list [.atom "python", m, h] => do
+    some (.python { typeMappings := ← decodePairs m, versionHeader := ← optStr h })
   | _ => none
 
 def decodeSource : Sx → Option Generate.SourceFile
@@ -65,15 +80,19 @@ def decodeCtx : Sx → Option ParseContext
   | _ => none
 
 /-- `(ext (("Vec<u8>" <type>) …))`: what `syn::parse_str::<Type>` makes of each serialized_as string -/
-def decodeExt (st : UnicodeOps) : Sx → Option Ext
+def decodeExt (st : UnicodeOps) (snake : List (Str × Str)) : Sx → Option Ext
   | .list [.atom "ext", .list rows] => do
     let table ← rows.mapM fun r => match r with
       | .list [.str s, .atom "none"] => some (s, none)
       | .list [.str s, t] => do some (s, some (← Decode.ty t))
       | _ => none
-    some { U := st, parseType := fun s => match table.find? (·.1 == s) with
-      | some (_, t) => t
-      | none => none }
+    some { U := st,
+           parseType := fun s => (match table.find? (·.1 == s) with
+             | some (_, t) => t
+             | none => none),
+           snakeCase := fun s => (match snake.find? (·.1 == s) with
+             | some (_, r) => r
+             | none => s) }
   | _ => none
 
 def jOptInt : Option Int → J
@@ -99,6 +118,11 @@ def handle (st : DriverState) (req : Sx) : DriverState × J :=
         some (c, ← iu.asBool?, ← il.asBool?, lo, up, ← iw.asBool?)
       | _ => none
     ({ st with utable := parsed }, .obj [("ok", .num parsed.length)])
+  | .list [.atom "snake-table", .list rows] =>
+    let parsed := rows.filterMap fun r => match r with
+      | .list [.str a, .str b] => some (a, b)
+      | _ => none
+    ({ st with snake := parsed }, .obj [("ok", .num parsed.length)])
   | .list [.atom "int", .atom op, a] =>
     (st, match a.asInt? with
       | none => bad "int"
@@ -154,16 +178,19 @@ def handle (st : DriverState) (req : Sx) : DriverState × J :=
         | "variant" => jOutcome .str (Serde.applyVariant st.U rule s)
         | _ => bad "serde")
   | .list [.atom "parse", c, e, .str crate, .str fileName, .str path, f] =>
-    (st, match decodeCtx c, decodeExt st.U e, Decode.file f with
+    (st, match decodeCtx c, decodeExt st.U st.snake e, Decode.file f with
       | some ctx, some ext, some file =>
         jOutcome (fun o => match o with | some d => Encode.parsed d | none => .null)
           (Visitor.parseFile ext ctx pickSmallest crate fileName path file)
       | _, _, _ => bad "parse")
   | .list [.atom "generate", l, multi, .list tos, e, .list fs] =>
-    (st, match decodeLang l, multi.asBool?, Decode.strs tos, decodeExt st.U e, fs.mapM decodeSource with
+    (st, match decodeLang l, multi.asBool?, Decode.strs tos, decodeExt st.U st.snake e, fs.mapM decodeSource with
       | some lang, some m, some targets, some ext, some files =>
         (match Generate.run ext lang m targets pickSmallest files with
-        | .ok (.outputs outs) => .obj [("ok", .obj (outs.map fun (c, t) => (String.ofList c, .str t)))]
+        | .ok (.outputs outs) =>
+          .obj ([("ok", .obj (outs.map fun (c, t) => (String.ofList c, .str t)))] ++
+            (let amb := if m then Generate.ambiguities ext lang targets files else []
+             if amb.isEmpty then [] else [("ambiguous", J.ofStrs amb)]))
         | .ok (.parseErrors errs) =>
           .obj [("errors", .arr (errs.map fun (e, f) => .arr [.str (Encode.errName e).toList, .str f]))]
         | .err e => .obj [("err", .str (Encode.errName e).toList)]
